@@ -284,6 +284,34 @@ func genOps(r *lib.Rand) (int, []Op) {
 	return capacity, ops
 }
 
+// fill a heap with distinct-ish wide priorities, then take entries out of the middle
+// (Remove needs both its down and its up), peeking in between
+func genFillRemove(r *lib.Rand) (int, []Op) {
+	k := 6 + r.Intn(12)
+	var ops []Op
+	var live []int64
+	for i := 0; i < k; i++ {
+		p := int64(r.Intn(1000))
+		ops = append(ops, Op{K: "push", A: p, B: int64(i + 1)})
+		live = append(live, p)
+	}
+	for n := k; n > 0; n-- {
+		i := r.Intn(n)
+		if n > 3 && r.Chance(70) {
+			i = n/2 + r.Intn(n-n/2) // a leaf or near-leaf
+		}
+		ops = append(ops, Op{K: "remove", A: int64(i)})
+		if r.Chance(30) {
+			ops = append(ops, Op{K: "peek", A: live[r.Intn(len(live))]})
+			n--
+			if n <= 0 {
+				break
+			}
+		}
+	}
+	return []int{1, 4, 16, 64}[r.Intn(4)], ops
+}
+
 // all sequences over a small alphabet, of length exactly n
 func exhaustive(n int, emit func([]Op)) {
 	alphabet := []Op{{K: "push", A: 0}, {K: "push", A: 1}, {K: "push", A: 2}, {K: "pop"},
@@ -723,6 +751,7 @@ func touchCap(o *lib.Out, w *world, r *lib.Rand, name string, maxMsg int64) {
 
 func main() {
 	n := flag.Int("n", 120, "random queue sequences (each run on both queues)")
+	nfill := flag.Int("nfill", 40, "fill-then-remove queue sequences (each run on both queues)")
 	nchan := flag.Int("nchan", 60, "random channel runs")
 	nbig := flag.Int("nbig", 12, "large channel scans")
 	ntouch := flag.Int("ntouch", 40, "touch-near-cap cases")
@@ -792,6 +821,12 @@ func main() {
 		capacity, ops := genOps(r)
 		for _, cont := range []bool{false, true} {
 			runPq(o, fmt.Sprintf("rand-%d-%v", k, cont), PqIn{Container: cont, Cap: capacity, Ops: ops}, []string{"pq-gen=random"})
+		}
+	}
+	for k := 0; k < *nfill; k++ {
+		capacity, ops := genFillRemove(r)
+		for _, cont := range []bool{false, true} {
+			runPq(o, fmt.Sprintf("fill-%d-%v", k, cont), PqIn{Container: cont, Cap: capacity, Ops: ops}, []string{"pq-gen=fill-then-remove"})
 		}
 	}
 	// 3. real channels
